@@ -13,3 +13,31 @@ func HarnessC17RegistryMappers() {
 	verifAssert(rw != nil && !rw.ReadOnly, "C17: RegistryDefault.Mapper is read-only (writes would never create mappings)")
 	verifAssert(r.ReadOnlyMapper() == ro && r.Mapper() == rw && ro != rw, "C17: the registry does not keep the two mappers apart")
 }
+
+// HarnessC14RegistryInit: the lazily initialised getters of RegistryDefault
+// that request handlers call on every request, from two goroutines on a
+// registry on which they have not been called before.
+func HarnessC14RegistryInit() {
+	r := &RegistryDefault{}
+	done := make(chan struct{}, 2)
+	which := verifChoice(4)
+	call := func() {
+		switch which {
+		case 0:
+			_ = r.ReadOnlyMapper()
+		case 1:
+			_ = r.Mapper()
+		case 2:
+			_ = r.PermissionEngine()
+		default:
+			_ = r.ExpandEngine()
+		}
+		done <- struct{}{}
+	}
+	verifTag([]string{"ReadOnlyMapper", "Mapper", "PermissionEngine", "ExpandEngine"}[which])
+	go call()
+	go call()
+	<-done
+	<-done
+	verifReach("c14.registry")
+}
